@@ -80,6 +80,14 @@ def slack_tripped_int(t: int, reads, thr: int) -> str:
     return 'slack_tripped_only_on_earlier_reads'
 
 
+def malleate(sig: bytes) -> bytes:
+    """(R, S) -> (R, S + L): the same group equation in a non-canonical encoding
+    (S < L < 2^253, so the sum always fits).  libsodium refuses it; so must the code."""
+    body, tail = sig[:64], sig[64:]
+    s = int.from_bytes(body[32:], 'little') + L
+    return body[:32] + s.to_bytes(32, 'little') + tail
+
+
 def and3(*vals):
     """Kleene conjunction over True / False / None."""
     if any(v is False for v in vals):
